@@ -484,7 +484,10 @@ def generate(seed, index):
                         sop["order"] = order
                     evs[sop["ev"]] = cid
                     client_ops[c].append(sop)
-                    # the request is made again right away: it must give the usual result
+                    # a request is made right away - the same again, or another one: it must give
+                    # the usual result
+                    if rng.random() < 0.5:
+                        cid = W.pick(rng, cfg_ids)
                     sop2 = {"op": "scan", "ev": f"E{len(evs)}", "cfg": cid}
                     evs[sop2["ev"]] = cid
                     client_ops[c].append(sop2)
@@ -523,6 +526,10 @@ def generate(seed, index):
                         sop["order"] = order
                     evs[sop["ev"]] = cid
                     client_ops[c].append(sop)
+                    # the next request - the same one again, or another one (other options, other
+                    # tree): whatever the failed walk had collected must not end up in it
+                    if rng.random() < 0.5:
+                        cid = W.pick(rng, cfg_ids)
                     sop2 = {"op": "scan", "ev": f"E{len(evs)}", "cfg": cid}
                     evs[sop2["ev"]] = cid
                     client_ops[c].append(sop2)
